@@ -1,6 +1,7 @@
 /-
 C13  Loading a subset of groups or variables equals projecting the full load.
 -/
+import OsyrisProofs.Layout
 import OsyrisProofs.Readers
 
 namespace Osyris.C13
